@@ -19,6 +19,7 @@ import (
 	"fmt"
 	"os"
 	"os/exec"
+	"path"
 	"path/filepath"
 	"runtime"
 	"sort"
@@ -375,6 +376,51 @@ func (j *job) observedLine(so *scriptObs, modelLine string) string {
 }
 
 // isoOracle: the model-independent part of C04.
+// expectedUnpack: the tree ("<path>=d" / "<path>=f<hex data>", sorted) that unpacking the entries into an
+// empty work directory must give; ok=false when the entries conflict (a path that is both file and
+// directory, a duplicate under RequireUniqueNames, names that leave the directory) — not judged then.
+func expectedUnpack(files []fileSpec, unique bool) ([]string, bool) {
+	data := map[string]string{}
+	dirs := map[string]bool{".tmp": true}
+	for _, f := range files {
+		if f.Name == "" || strings.HasPrefix(f.Name, "/") || strings.Contains(f.Name, "$") {
+			return nil, false
+		}
+		p := path.Clean(f.Name)
+		if p == "." || p == ".." || strings.HasPrefix(p, "../") {
+			return nil, false
+		}
+		if _, dup := data[p]; dup && unique {
+			return nil, false
+		}
+		data[p] = f.Data
+		for d := path.Dir(p); d != "."; d = path.Dir(d) {
+			dirs[d] = true
+		}
+		// the directories named by the un-cleaned name are created too (MkdirAll of filepath.Dir(name) is
+		// applied to the cleaned absolute path, so nothing extra appears)
+	}
+	for p := range data {
+		if dirs[p] {
+			return nil, false
+		}
+		for d := path.Dir(p); d != "."; d = path.Dir(d) {
+			if _, isFile := data[d]; isFile {
+				return nil, false
+			}
+		}
+	}
+	var out []string
+	for d := range dirs {
+		out = append(out, encPath(d)+"=d")
+	}
+	for p, d := range data {
+		out = append(out, encPath(p)+"=f"+hx(d))
+	}
+	sort.Strings(out)
+	return out, true
+}
+
 func isoOracle(res *corr.Result, j *job) {
 	res.OracleChecked["C04"]++
 	v := func(what, class string) { res.Violate("C04", j.id, what, class) }
@@ -428,6 +474,19 @@ func isoOracle(res *corr.Result, j *job) {
 		}
 		if fmt.Sprint(got) != fmt.Sprint(want) {
 			v(fmt.Sprintf("script %s: deferred functions ran as %v, registered as %v", s.Name, got, s.Registered), "defer-order")
+		}
+		// the work directory right after setup (first operation of every script is a probe): exactly the
+		// archive's files — the last entry wins where two entries name the same path — with exactly their
+		// data, their parent directories and .tmp (judged only when the entries do not conflict otherwise)
+		if si < len(sp.Scripts) && len(s.Probes) > 0 && len(sp.Scripts[si].Ops) > 0 && sp.Scripts[si].Ops[0].T == "P" {
+			if want, ok := expectedUnpack(sp.Scripts[si].Files, sp.UniqueNames); ok {
+				got := append([]string{}, s.Probes[0].Tree...)
+				sort.Strings(got)
+				if fmt.Sprint(got) != fmt.Sprint(want) {
+					v(fmt.Sprintf("script %s: work directory after setup is %v, the archive says %v", s.Name, got, want), "unpack-not-exact")
+				}
+				res.Distribution["oracle-unpack-exact"]++
+			}
 		}
 		// host variables must be invisible
 		for _, p := range s.Probes {
